@@ -85,8 +85,9 @@ def write_read(recs, blocked, api, fobj='bytesio'):
     f = io.BytesIO()
     if api == 'class_close':
         w = mciipm.VbsWriter(f, blocked=blocked)
-        for r in recs:
-            w.write(r)
+        for i, r in enumerate(recs):
+            # the record as bytes / bytearray / memoryview by turns
+            w.write(r if (i + len(r)) % 3 == 0 else bytearray(r) if (i + len(r)) % 3 == 1 else memoryview(r))
         w.close()
     else:
         with mciipm.VbsWriter(f, blocked=blocked) as w:
